@@ -78,3 +78,20 @@ def diff_and_patch(vendor, old, new, rb, acl=None, filter_acl=None, add_comments
 
 def cmd_paths(vendor, patch_tree):
     return list(formatter(vendor).cmd_paths(patch_tree).keys())
+
+
+def production_acl_text(named_rules, indents=None):
+    """the combined ACL text exactly as production builds it: every generator's raw ACL literal (with whatever base indentation
+    its source has) goes through RunGeneratorResult.acl_text() (%generator_names tagging)"""
+    from collections import OrderedDict as odict
+
+    from annet.generators.result import RunGeneratorResult
+    from annet.types import GeneratorPartialResult
+    from vf.model.refacl import acl_lines
+    res = RunGeneratorResult()
+    for i, (name, rules) in enumerate(named_rules):
+        pad = " " * (indents[i] if indents else 0)
+        raw = "\n" + "".join(pad + l + "\n" for l in acl_lines(rules)) + pad
+        res.add_partial(GeneratorPartialResult(name=name, tags=[], acl=raw, acl_rules=None, acl_safe="", acl_safe_rules=None, output="",
+                                               config=odict(), safe_config=odict(), perf=None))
+    return res.acl_text()
